@@ -27,13 +27,21 @@ Definition qc_append_cu3 (c : circuit V) (g : cu3gate) (qargs : Z * Z) : circuit
 (* circuit.assign_parameters(parameters=vs, inplace=b): Qiskit's positional binding over the sorted names (the model's
    assign_positional); without inplace=True the call would leave the circuit unchanged (its result is discarded) *)
 Definition qc_assign (c : circuit V) (vs : list V) (inplace : bool) : result (circuit V) :=
-  if inplace then assign_positional c vs else Ok c.
+  (* inplace=False still validates the value count (ValueError) before returning a copy that the caller discards
+     (found by translator/conformance.py, family callee-qiskit-assign-parameters-copy-mismatch) *)
+  if inplace then assign_positional c vs else do _u <- assign_positional c vs; Ok c.
 (* outer_circuit.append(instruction=<layer gate>, qargs=...) followed (later) by .decompose(): the instructions of the
    layer gate, inlined.  qargs is NOT interpreted (the code passes range(0, n_qubits): every qubit in order) *)
 Definition qc_append_gate (c : circuit V) (g : circuit V) (qargs : list Z) : circuit V := c ++ g.
 End Rep.
 Arguments cu3gate : clear implicits.
 Arguments qc_empty : clear implicits.
+
+(* f"{z:06d}" for EVERY int z (the reading of the format spec 06d named by specs/c04.py): CPython pads with zeros to a
+   total width of 6 INCLUDING the sign ("-00042"), longer numbers in full.  Names.v's pad6 is this for 0 <= z only
+   (found by translator/conformance.py, family fstring-ints: pad6 disagreed with CPython on negative z). *)
+Definition pad6_py (z : Z) : name :=
+  if z <? 0 then 45%nat :: (if - z <? 100000 then digits_w 5 (- z) else dec (- z)) else pad6 z.
 
 (* ================================================================== checked lemmas *)
 Lemma string_of_name_app a b : string_of_name (a ++ b) = (string_of_name a ++ string_of_name b)%string.
@@ -85,9 +93,16 @@ Proof.
   intros H. unfold param_name. rewrite !pyname_app, H, (pyname_string_of_name _ (dec_ascii q)). reflexivity.
 Qed.
 
-Lemma pyname_layer_prefix (layer_id : Z) :
-  pyname ("layer" ++ string_of_name (pad6 layer_id) ++ "_")%string = layer_prefix false layer_id.
-Proof. unfold layer_prefix. rewrite !pyname_app, (pyname_string_of_name _ (pad6_ascii layer_id)). reflexivity. Qed.
+Lemma pad6_py_nonneg z : 0 <= z -> pad6_py z = pad6 z.
+Proof. intros H. unfold pad6_py. replace (z <? 0) with false by (symmetry; apply Z.ltb_ge; lia). reflexivity. Qed.
+
+(* layer ids are positions in the layers tuple: never negative *)
+Lemma pyname_layer_prefix (layer_id : Z) : 0 <= layer_id ->
+  pyname ("layer" ++ string_of_name (pad6_py layer_id) ++ "_")%string = layer_prefix false layer_id.
+Proof.
+  intros H. rewrite (pad6_py_nonneg _ H). unfold layer_prefix.
+  rewrite !pyname_app, (pyname_string_of_name _ (pad6_ascii layer_id)). reflexivity.
+Qed.
 
 (* ------------------------------------------------------------------ the render lemmas (justification of idiom int-to-decimal-string)
    Python's str(z) / f"{z}" for z >= 0 is THE string of decimal digits without a leading zero whose value is z (and "0" for 0),
